@@ -45,7 +45,10 @@ pub fn run(tier: Tier, reg: &[VT]) -> Report {
 	let acc = par(reg, |vt, acc| {
 		heartbeat(vt.name);
 		let shape = (vt.shape)();
-		for v in domain::values(&shape, &b) {
+		// the 2→4 byte count-prefix boundary: every type in the thorough tier, core types always
+		let mut bb = b.clone();
+		bb.big_fills = b.big_fills || vt.core;
+		for v in domain::values(&shape, &bb) {
 			one(vt, &shape, &v, acc);
 		}
 	});
@@ -62,6 +65,44 @@ pub fn run(tier: Tier, reg: &[VT]) -> Report {
 	});
 	rep.part("huge-counts", "Vec<()> with 2^30-1, 2^30 (and 2^32-1 in the thorough tier) elements", acc);
 
+	if tier.thorough() {
+		// every 32-bit pattern through the fixed-width primitives (allocation-free typed path)
+		let blocks: Vec<u32> = (0..4096).collect();
+		let acc = par(&blocks, |blk, acc| {
+			use parity_scale_codec::Encode;
+			let lo = (*blk as u64) << 20;
+			let mut bad: Option<(u32, &'static str)> = None;
+			for x in lo..lo + (1 << 20) {
+				let x = x as u32;
+				let want = x.to_le_bytes();
+				if !x.using_encoded(|e| e == want) {
+					bad = Some((x, "u32"));
+				}
+				if !(x as i32).using_encoded(|e| e == want) {
+					bad = Some((x, "i32"));
+				}
+				if !f32::from_bits(x).using_encoded(|e| e == want) {
+					bad = Some((x, "f32"));
+				}
+			}
+			acc.evaluations += 3 << 20;
+			acc.states += 3 << 20;
+			acc.traces += 3 << 20;
+			acc.transitions += 3 << 20;
+			acc.nontrivial += 3 << 20;
+			acc.outcome("32-bit-block");
+			if let Some((x, ty)) = bad {
+				acc.violate(Violation {
+					property: "C01".into(),
+					sub: "C01.enc".into(),
+					key: format!("C01|{}|encode", ty),
+					detail: format!("{} bit pattern {:08x} is not encoded as its little-endian bytes", ty, x),
+					case: json!({"sub": "C01.enc", "type": ty, "value": if ty == "u32" { json!({"u": x.to_string()}) } else if ty == "i32" { json!({"i": (x as i32).to_string()}) } else { json!({"f32": x}) }}),
+				});
+			}
+		});
+		rep.part("every 32-bit pattern", "all 2^32 bit patterns of u32, i32 and f32: using_encoded == little-endian bytes", acc);
+	}
 	rep.rule = "odometer enumeration of the boundary domain (DESIGN.md A.1) of every registered type; a case is (type, value); \
 		non-trivial = the encoding is non-empty; states = cases whose bytes were compared with the reference encoder"
 		.into();
